@@ -7,6 +7,8 @@
   (`Arrai/C12/Model.lean`) looks characters up in *these* tables.
   `escapeCases`: (label, action, args) with action 1 = `i = number(i+args[0], args[1], args[2], args[3])`,
   2 = `sb.WriteByte(args[0])`, 3 = `sb.WriteString(indent)`.
+  `fragmentGuards`: every `if` of parseArraiStringFragment in source order (the slice-bounds and error guards
+  that make a bad escape an error).
   Core-only (linked into the driver).
 -/
 namespace Arrai.C12.Expected
@@ -42,11 +44,12 @@ def escapeCases : List (Nat × Nat × List Nat) := [
   (118, 2, [11]),
   (120, 1, [1, 2, 16, 8])]
 def escapeOther : List String := []
-def escapeDefault : String := "{ if strings.ContainsRune(validEscapes, rune(c)) { sb.WriteByte(c) } panic(fmt.Errorf(\"unrecognized \\\\-escape: %q\", s[i])) }"
-def numberParams : String := "func(i, size, base, bits int) int"
+def escapeDefault : String := "{ return \"\", fmt.Errorf(\"unrecognized \\\\-escape: %q\", s[i]) }"
+def numberParams : String := "func(i, size, base, bits int) (int, error)"
 def numberParse : String := "strconv.ParseUint(s[i:i+size], base, bits)"
-def numberReturn : String := "i + size - 1"
+def numberReturn : String := "0 | 0 | i + size - 1"
 def fragmentLoop : String := "i := 0; i < len(s); i++"
+def fragmentGuards : List String := ["strings.HasPrefix(validEscapes, \"`\")", "i+size > len(s)", "err != nil", "i == len(s)", "err != nil"]
 def renderableShape : String := "^[]+$"
 def renderableBytes : List Nat := [7, 8, 9, 10, 11, 12, 13, 27, 32, 33, 34, 35, 36, 37, 38, 39, 40, 41, 42, 43, 44, 45, 46, 47, 48, 49, 50, 51, 52, 53, 54, 55, 56, 57, 58, 59, 60, 61, 62, 63, 64, 65, 66, 67, 68, 69, 70, 71, 72, 73, 74, 75, 76, 77, 78, 79, 80, 81, 82, 83, 84, 85, 86, 87, 88, 89, 90, 91, 92, 93, 94, 95, 96, 97, 98, 99, 100, 101, 102, 103, 104, 105, 106, 107, 108, 109, 110, 111, 112, 113, 114, 115, 116, 117, 118, 119, 120, 121, 122, 123, 124, 125, 126]
 def identRE : String := "regexp.MustCompile(`\\A` + LexerNamePat + `\\z`)"
